@@ -8,10 +8,10 @@ ID = "C20"
 LEVEL = "fault_enumeration"
 TIMEOUT = {"quick": 900, "thorough": 7200}
 ALPHA = {
-    ("serial", "threaded"): ["refuse", "ok", "read-error", "write-error", "disconnect", "traffic"],
-    ("tcp", "threaded"): ["refuse", "timeout", "ok", "read-error", "write-error", "peer-eof", "peer-reset", "disconnect", "silence"],
-    ("serial", "asyncio"): ["refuse", "ok", "read-error", "disconnect", "traffic"],
-    ("tcp", "asyncio"): ["refuse", "timeout", "ok", "read-error", "peer-eof", "peer-reset", "disconnect", "silence"],
+    ("serial", "threaded"): ["refuse", "ok", "read-error", "write-error", "disconnect", "traffic", "stop"],
+    ("tcp", "threaded"): ["refuse", "timeout", "ok", "read-error", "write-error", "peer-eof", "peer-reset", "disconnect", "silence", "stop"],
+    ("serial", "asyncio"): ["refuse", "ok", "read-error", "disconnect", "traffic", "stop"],
+    ("tcp", "asyncio"): ["refuse", "timeout", "ok", "read-error", "peer-eof", "peer-reset", "disconnect", "silence", "stop"],
 }
 RTS = [3.0, 0.5, 10.0]
 
@@ -58,6 +58,10 @@ def judge(res, ev, meta, extra=()):
     res.count("lost_callbacks", lost)
     res.count("connect_attempts", attempts)
     res.count("writes", sum(1 for e in ev if e[1] == "WRITE"))
+    if meta.get("open_after_stop"):
+        res.count("lifetimes_with_a_connection_left_open_after_stop")      # outside the statement; reported, not judged
+    if meta.get("start_raised"):
+        res.count("lifetimes_where_start_raised_because_stop_ran_during_connect")
     if lost >= 1 and attempts >= 2:
         res.nontrivial((meta["kind"], meta["flavour"], tuple(meta["script"]), meta["rt"], meta.get("answer")))
         res.count("lifetimes_with_loss_and_reconnect")
@@ -136,7 +140,8 @@ def finish(agg, tier):
         "rule": "simulated lifetimes of SerialGateway / TCPGateway (deterministic thread simulation with virtual time over fake serial "
                 "/ socket / select) and AsyncSerialGateway / AsyncTCPGateway (virtual-time asyncio loop over asyncio-style fake "
                 "transports): every fault sequence up to length 3 (quick) / 4 (thorough) over {connect refused, connect timeout, "
-                "connect ok, read error, write error, peer orderly close, peer reset, user disconnect, traffic, silence} plus random "
+                "connect ok, read error, write error, peer orderly close, peer reset, user disconnect, traffic, silence, stop-now (also while "
+                "a connect attempt or a retry pause is in progress)} plus random "
                 "sequences up to length 12, each ended by stop(); reconnect_timeout in {0.5, 3, 10} virtual s. Offline checker over "
                 "the event log: made/lost callback counts and shape, a connect attempt and a loss callback after every unrequested "
                 "loss, retries spaced by reconnect_timeout, requests answered on live connections, nothing after stop() returned, no "
